@@ -12,7 +12,8 @@ Model: `RegionData.clauses` (= `create_data_movement_deep_copy_refs` +
   (`a(1) = 5` gets `copyout(a)`: the undefined `a(2)` of the device overwrites the host's).
 * `C13_partial` — proved when no touched array lands in `copyout`;
   `C13_deviation_partial` — when `copyout` arrays are at least never read, the *only* damage is
-  undefined device values copied back over elements the region left untouched. -/
+  undefined device values copied back over elements the region left untouched;
+  `C13_covered_partial` — hence none, if the region changes every declared element of them. -/
 namespace C13
 open MiniF RegionData
 
@@ -278,6 +279,17 @@ theorem C13_deviation_partial (s : Stmt) (h : CopyoutNotRead s) (σ γ : Store) 
           · exact absurd (Or.inr h3) h1
       · exact hag
 
+/-- **full coverage suffices, partial**: if the `copyout` arrays are never read and the region
+changes every element of them inside the declared extents `Ext`, the host agrees with host
+execution on all declared elements — the situation `copyout` is meant for -/
+theorem C13_covered_partial (s : Stmt) (h : CopyoutNotRead s) (σ γ : Store) (Ext : Loc → Prop)
+    (hcov : ∀ l, l.1 ∈ (clauses s).cout → Ext l → (exec s σ) l ≠ σ l) :
+    ∀ l, Ext l → (execACC (clauses s) s σ γ) l = (exec s σ) l := by
+  intro l hl
+  rcases C13_deviation_partial s h σ γ l with h1 | ⟨hout, _, h3⟩
+  · exact h1
+  · exact absurd h3 (hcov l hout hl)
+
 /-! ## The defect: partially written arrays are put in `copyout` -/
 
 /-- `a(1) = 5 ; b(2) = a(2)` with `a = 0`, `b = 1` -/
@@ -328,6 +340,13 @@ example : FullyWrittenOrRead good ∧ CopyoutNotRead good := by decide
 /-- scalars never appear in a clause -/
 example : ¬ (clauses good).cin.contains 5 ∧ ¬ (clauses good).cpy.contains 3 := by decide
 example : ¬ CopyoutNotRead wit := by decide
+/-- `do i = 1, 3: a(i) = b(i) + 1` with extent a(1:3): `copyin(b) copyout(a)`, every declared
+element of `a` is changed (hypothesis of `C13_covered_partial`) -/
+def cover : Stmt :=
+  .loop 2 (.lit 1) (.lit 3) (.lit 1) (.store1 0 (.var 2) (.bin .add (.idx1 1 (.var 2)) (.lit 1)))
+example : clauses cover = ⟨[1], [0], []⟩ ∧ CopyoutNotRead cover := by decide
+example : ∀ i : Fin 3, (exec cover (storeOf [])) (0, (i.val : Int) + 1, 0)
+    ≠ (storeOf []) (0, (i.val : Int) + 1, 0) := by decide
 example : accDataTrans true [.stmt good] = none := by decide
 example : accDataTrans false [.stmt good, .excluded] = none := by decide
 example : accDataTrans false [] = none := by decide
